@@ -62,6 +62,10 @@ func (r *Runner) RunHistory(histNo int, o HistOpts) error {
 				insertOnly = false
 			}
 		}
+		if r.Cfg.Quantised && !r.Cfg.Mem {
+			// which keys hold the vectors now (Quant.tla), before anything reads them back
+			r.VecKeysProj()
+		}
 		if o.Cold && !r.Cfg.Mem && r.Cfg.Quantised {
 			// the warm instance as the write left it (its cache was loaded from storage before the batch and has
 			// lived across it) against a cold copy
